@@ -751,15 +751,21 @@ func (r *vC13Run) step(step map[string]interface{}) vC13Event {
 			// duplicate of a request that was served already); returns when both servers
 			// have applied it
 			ms := r.metaLeader()
-			ctx, cancel := context.WithTimeout(context.Background(), vC13Deadline)
-			st := ms.metadata.ResumeStream(ctx, &proto.ResumeStreamOp{Stream: r.stream, Partitions: []int32{0}})
-			timedOut := ctx.Err() != nil
-			cancel()
-			if st != nil {
-				if timedOut {
-					r.t.Fatalf("INCONCLUSIVE: behaviour %d: resume timed out: %v", r.id, st.Message())
+			for try := 1; ; try++ {
+				ctx, cancel := context.WithTimeout(context.Background(), vC13Deadline)
+				st := ms.metadata.ResumeStream(ctx, &proto.ResumeStreamOp{Stream: r.stream, Partitions: []int32{0}})
+				timedOut := ctx.Err() != nil
+				cancel()
+				if st == nil {
+					break
 				}
-				r.t.Fatalf("INCONCLUSIVE: behaviour %d: resume refused: %v", r.id, st.Message())
+				// Raft leadership lost on the way (loaded machine): the operation is idempotent, try
+				// again with whoever leads the metadata now
+				if timedOut || try >= 5 {
+					r.t.Fatalf("INCONCLUSIVE: behaviour %d: resume refused %d times: %v", r.id, try, st.Message())
+				}
+				time.Sleep(200 * time.Millisecond)
+				ms = r.metaLeader()
 			}
 			idx := ms.getRaft().AppliedIndex()
 			deadline := time.Now().Add(vC13Deadline)
@@ -864,22 +870,33 @@ func (r *vC13Run) elect(obs *vC13Obs) {
 		mp = ms.metadata.GetPartition(r.stream, 0)
 		cur = r.leaderNode()
 	}
-	leader, epoch := mp.GetLeader()
-	ctx, cancel := context.WithTimeout(context.Background(), vC13Deadline)
-	defer cancel()
-	if st := ms.metadata.electNewPartitionLeader(ctx, mp, leader, epoch); st != nil {
-		if ctx.Err() != nil {
-			r.t.Fatalf("INCONCLUSIVE: behaviour %d: election timed out: %v", r.id, st.Message())
-		}
-		// a healthy cluster with both replicas in the ISR does not refuse: the Raft leadership
-		// was lost on the way (loaded machine) - not an observation about group subscriptions
-		r.t.Fatalf("INCONCLUSIVE: behaviour %d: election refused: %v", r.id, st.Message())
-	}
 	next := "L"
 	if cur == "L" {
 		next = "F"
 	}
 	want := r.srv[next].config.Clustering.ServerID
+	for try := 1; ; try++ {
+		leader, epoch := mp.GetLeader()
+		if leader == want {
+			break // an earlier try went through although it reported a failure
+		}
+		ctx, cancel := context.WithTimeout(context.Background(), vC13Deadline)
+		st := ms.metadata.electNewPartitionLeader(ctx, mp, leader, epoch)
+		timedOut := ctx.Err() != nil
+		cancel()
+		if st == nil {
+			break
+		}
+		// a healthy cluster with both replicas in the ISR does not refuse: the Raft leadership
+		// was lost on the way (loaded machine) - not an observation about group subscriptions.
+		// Try again with whoever is the metadata leader now.
+		if timedOut || try >= 5 {
+			r.t.Fatalf("INCONCLUSIVE: behaviour %d: election refused %d times: %v", r.id, try, st.Message())
+		}
+		time.Sleep(200 * time.Millisecond)
+		ms = r.metaLeader()
+		mp = ms.metadata.GetPartition(r.stream, 0)
+	}
 	for {
 		la, ea := r.cur("L").GetLeader()
 		lb, eb := r.cur("F").GetLeader()
